@@ -217,6 +217,30 @@ func Sweeps(thorough bool, f func(name string, m ref.Msg, fits bool)) {
 			f(fmt.Sprintf("SA.trcount=%d", v), one(ref.Payload{T: ref.PSA, SA: []ref.Proposal{{Num: 1, Proto: 1, Tr: trs}}}), true)
 		}
 	}
+	// selector value × content shape (leading / trailing zero octets, all-zero, 0xFF): a codec that
+	// interprets the data of one particular type code (string trimming, integer normalisation) shows here
+	shapes := [][]byte{{0}, {0, 0}, {0x41, 0}, {0, 0x41}, {0x41, 0x42, 0, 0}, {0xff}, {0xff, 0}, {0x20, 0x41, 0x20}, []byte("a.b\x00"), {0x0a}}
+	for v := 0; v < 256; v++ {
+		b := uint8(v)
+		for si, d := range shapes {
+			f(fmt.Sprintf("IDi.type×shape=%d/%d", v, si), one(ref.Payload{T: ref.PIDi, B: b, Data: d}), true)
+			f(fmt.Sprintf("IDr.type×shape=%d/%d", v, si), one(ref.Payload{T: ref.PIDr, B: b, Data: d}), true)
+			f(fmt.Sprintf("AUTH.method×shape=%d/%d", v, si), one(ref.Payload{T: ref.PAUTH, B: b, Data: d}), true)
+			f(fmt.Sprintf("CERT.enc×shape=%d/%d", v, si), one(ref.Payload{T: ref.PCERT, B: b, Data: d}), true)
+			f(fmt.Sprintf("CERTREQ.enc×shape=%d/%d", v, si), one(ref.Payload{T: ref.PCERTREQ, B: b, Data: d}), true)
+			f(fmt.Sprintf("N.proto×shape=%d/%d", v, si), one(ref.Payload{T: ref.PNotify, B: b, NType: uint16(v) << 8, SPI: d, Data: d}), true)
+			f(fmt.Sprintf("CP.type×shape=%d/%d", v, si), one(ref.Payload{T: ref.PCP, B: b, CP: []ref.CPAttr{{Type: uint16(v), Val: d}}}), true)
+			f(fmt.Sprintf("EAP.code×shape=%d/%d", v, si), one(ref.Payload{T: ref.PEAP, EAP: &ref.EAP{Code: uint8(1 + v%2), ID: b, Method: uint8(1 + v%3), Data: d}}), true)
+			f(fmt.Sprintf("EAP.exp×shape=%d/%d", v, si), one(ref.Payload{T: ref.PEAP, EAP: &ref.EAP{Code: 2, ID: b, Method: 254, VID: uint32(v), VType: uint32(v), Data: d}}), true)
+		}
+	}
+	for si, d := range shapes {
+		f(fmt.Sprintf("Nonce.shape=%d", si), one(ref.Payload{T: ref.PNonce, Data: d}), true)
+		f(fmt.Sprintf("V.shape=%d", si), one(ref.Payload{T: ref.PVendor, Data: d}), true)
+		f(fmt.Sprintf("KE.shape=%d", si), one(ref.Payload{T: ref.PKE, Group: 2, Data: d}), true)
+		f(fmt.Sprintf("SA.spi.shape=%d", si), one(ref.Payload{T: ref.PSA, SA: []ref.Proposal{{Num: 1, Proto: 3, SPI: d, Tr: []ref.Transform{tlv(1, 12, 14, d), tr(5, 0)}}}}), true)
+		f(fmt.Sprintf("AKA.shape=%d", si), one(aka(1, 1, 1, at(ref.AtKDFInput, d), at(ref.AtCheckcode, append(append([]byte(nil), d...), make([]byte, 20-len(d))...)))), true)
+	}
 	// two-dimensional: SPI size × transform count
 	for _, sl := range []int{0, 1, 4, 8, 247, 248, 249, 255} {
 		for _, tc := range []int{1, 2, 5} {
